@@ -30,6 +30,12 @@ def run(ctx):
                "mc-swarm", workers=4 if q else 10, timeout=3000)
     runlib.run_templates(ctx, ["C18"], seeds=[ctx.seed, ctx.seed + 1, ctx.seed + 2] if q else list(range(ctx.seed, ctx.seed + 50)),
                          iters=[0, 1, 6, 25] if q else [0, 1, 6, 25, 80], templates=["real_pso", "real_pso|evals", "real_pso|log4"], quick_grid=False)
+    # harness-built PSO configurations: a second swarm under identifier A next to a default one, a scoped inner loop with
+    # its own LessThanN inside the repair step, a swarm started after another phase filled the best-individual memory
+    from checks.templates_grid import pso_variant_specs
+    runlib.run_templates(ctx, ["C18"], seeds=None, iters=None, name="variants",
+                         extra_specs=pso_variant_specs([ctx.seed, ctx.seed + 1] if q else list(range(ctx.seed, ctx.seed + 12)),
+                                                       [2, 7] if q else [2, 7, 30]))
     return ctx.finish(RULE)
 
 
